@@ -65,6 +65,12 @@ def run(tier):
     vlib.vh(["repl", "multikey", "--seed", vlib.seed(), "--n", 1500 if thorough else 150, "--out", tr])
     vlib.validate_runs(rep, "ReplTrace", "ReplTrace", tr, wd, "multikey", dev_cfgs=DEV, describe=describe, strip=("nodes",))
     os.remove(tr)
+    # clusters of 2-4 real nodes: updates queued in the real GossipState, serialised to JSON on the wire, delivered in any
+    # order / duplicated / lost (then made up for by a full-state resend); after full delivery every node answers alike
+    tr = os.path.join(wd, "cluster.ndjson")
+    vlib.vh(["repl", "cluster", "--seed", vlib.seed() * 5 + 2, "--n", 3000 if thorough else 300, "--out", tr])
+    vlib.validate_runs(rep, "ReplTrace", "ReplTrace", tr, wd, "cluster", dev_cfgs=DEV, describe=describe, strip=("nodes",))
+    os.remove(tr)
     rep.cov["distinct_nontrivial"] = rep.cov["traces_validated_against_impl"]
     rep.cov["rule"] = ("a case is one run of 2-4 real replicated shard actors on one key: client commands at any node, deltas "
                        "delivered in any order, duplicated, delayed past later commands, anti-entropy; every case has >= 1 write")
